@@ -33,10 +33,11 @@ type ModelVar struct {
 }
 
 type defn struct {
-	sort string
-	def  string // "" for plain declarations
-	args string // for declare-fun: "(Int Int)"
-	deps []string
+	sort  string
+	def   string // "" for plain declarations
+	args  string // for declare-fun: "(Int Int)"
+	deps  []string
+	isRec bool   // define-fun-rec: args holds the formal parameter list
 }
 
 type axiom struct {
@@ -57,6 +58,8 @@ type VC struct {
 	noteSet map[string]bool
 	heapT   map[string]heapComp
 	prog    *Program
+	noDefine int
+	recBusy  map[string]bool
 }
 
 type heapComp struct {
@@ -92,7 +95,7 @@ func (vc *VC) fresh(prefix, sort string) string {
 
 // define declares a constant equal to term (kept small; atoms are returned unchanged).
 func (vc *VC) define(prefix, sort, term string) string {
-	if !strings.ContainsAny(term, " (") {
+	if !strings.ContainsAny(term, " (") || vc.noDefine > 0 {
 		return term
 	}
 	n := vc.name(prefix)
@@ -219,7 +222,9 @@ func (vc *VC) query(o *Obligation, produceModels bool) string {
 			continue
 		}
 		d := vc.defs[n]
-		if d.args != "" {
+		if d.isRec {
+			fmt.Fprintf(&b, "(define-fun-rec %s %s %s %s)\n", n, d.args, d.sort, d.def)
+		} else if d.args != "" {
 			fmt.Fprintf(&b, "(declare-fun %s %s %s)\n", n, d.args, d.sort)
 		} else if d.def != "" {
 			fmt.Fprintf(&b, "(define-fun %s () %s %s)\n", n, d.sort, d.def)
@@ -251,7 +256,7 @@ func (vc *VC) query(o *Obligation, produceModels bool) string {
 
 func (vc *VC) prelude() string {
 	var b strings.Builder
-	if vc.mode == ModeInt {
+	{
 		b.WriteString("(define-fun g_abs ((x Int)) Int (ite (>= x 0) x (- x)))\n")
 		b.WriteString("(define-fun g_tdiv ((x Int) (y Int)) Int (ite (= (>= x 0) (>= y 0)) (div (g_abs x) (g_abs y)) (- (div (g_abs x) (g_abs y)))))\n")
 		b.WriteString("(define-fun g_trem ((x Int) (y Int)) Int (- x (* y (g_tdiv x y))))\n")
@@ -274,6 +279,8 @@ type Program struct {
 	typesPkgs map[string]*types.Package
 	loopFree  map[*ssa.Function]bool
 	implCache map[string][]types.Type
+	mutableGlobals map[*ssa.Global]bool
+	globalByComp   map[string]*ssa.Global
 }
 
 func relPkgPath(p *types.Package) string {
@@ -289,6 +296,9 @@ func relPkgPath(p *types.Package) string {
 func funcKey(fn *ssa.Function) string {
 	if fn == nil {
 		return ""
+	}
+	if o := fn.Origin(); o != nil {
+		fn = o
 	}
 	pkg := ""
 	if fn.Pkg != nil {
@@ -315,4 +325,21 @@ func sortedKeys[V any](m map[string]V) []string {
 	}
 	sort.Strings(ks)
 	return ks
+}
+
+// fnPkg: the types package a function belongs to (instantiations and closures have no ssa package of their own).
+func fnPkg(fn *ssa.Function) *types.Package {
+	if fn.Pkg != nil {
+		return fn.Pkg.Pkg
+	}
+	if o := fn.Origin(); o != nil && o.Pkg != nil {
+		return o.Pkg.Pkg
+	}
+	if fn.Object() != nil {
+		return fn.Object().Pkg()
+	}
+	if fn.Parent() != nil {
+		return fnPkg(fn.Parent())
+	}
+	return nil
 }
